@@ -365,6 +365,18 @@ fn note_obligations(node: &Node, lens: &[Option<u64>]) {
     }
 }
 
+/// clone() / clone_from() of iterator-backed signals mid-stream (and past their end)
+fn clone_conformance(rep: &mut Report, seed: u64) {
+    let mut rng = Rng::derive(seed, &[52]);
+    let mut n = 0;
+    let mk = |v: u64| signal::from_iter((0..7 + 3 * v).map(|i| [i as f32 + 1.0, -(i as f32)]).collect::<Vec<[f32; 2]>>());
+    n += checks::cloneconf::check_clone_state("from_iter", "kind=clone", mk, |s, _i| (s.next(), s.is_exhausted()), rep, &mut rng, 24, 12, 8);
+    let mk2 = |v: u64| signal::from_interleaved_samples_iter::<_, [i16; 3]>((0..20 + 4 * v as i16).collect::<Vec<i16>>());
+    n += checks::cloneconf::check_clone_state("from_interleaved_samples", "kind=clone", mk2, |s, _i| (s.next(), s.is_exhausted()), rep, &mut rng, 24, 12, 8);
+    rep.eval(n);
+    rep.hit_n("clone_conformance_scripts", n);
+}
+
 /// take(n) for n around the integer-width boundaries: len() / size_hint() report n - k after k
 /// items (never a truncated n), and the first items are the source's.
 fn huge_take(rep: &mut Report) {
@@ -453,6 +465,8 @@ fn main() {
         rep.oblige(o, 1);
     }
 
+    rep.oblige("clone_conformance_scripts", 1);
+    clone_conformance(&mut rep, cli.seed);
     rep.oblige("take_n_at_least_2_pow_32", 1);
     huge_take(&mut rep);
 
